@@ -13,7 +13,7 @@ def norm_place(p):
         if isinstance(e, str):
             proj.append(e)
         elif "f" in e:
-            proj.append(("f", e["f"], e.get("n")))
+            proj.append(("f", e["f"], e.get("n"), e.get("t")))
         elif "ix" in e:
             proj.append(("ix", e["ix"]))
         elif "cix" in e:
